@@ -99,6 +99,7 @@ def build(desc, s, w, ctx):
         s.ev("ctor<", nm, kind)
         ctx.execs.append(ex)
     ctx.top = ex
+    w.top = ex
     return ex
 
 
